@@ -1,5 +1,286 @@
+(* C14 — proofs, part 1: the invariant of the patched code, totality (no panic), every effect inside the
+   torrent / below the allocation bound.  Part 2 (Proof/C14_frame.v): other connections, pieces, refutations. *)
 From Coq Require Import List ZArith Bool Lia.
 From K.Model Require Import C14.
 Import ListNotations.
 Local Open Scope Z_scope.
-Lemma placeholder : True. Proof. exact I. Qed.
+
+(* ------------------------------------------------------------------ lists indexed by Z *)
+Lemma zlen_nonneg : forall {A} (l : list A), 0 <= zlen l.
+Proof. intros; unfold zlen; lia. Qed.
+
+Lemma length_nset : forall {A} (l : list A) k v, length (nset l k v) = length l.
+Proof. induction l as [|x l IH]; intros [|k] v; simpl; auto. Qed.
+
+Lemma zlen_zset : forall {A} (l : list A) i v, zlen (zset l i v) = zlen l.
+Proof. intros; unfold zlen, zset; now rewrite length_nset. Qed.
+
+Lemma zlen_app : forall {A} (a b : list A), zlen (a ++ b) = zlen a + zlen b.
+Proof. intros; unfold zlen; rewrite app_length; lia. Qed.
+
+Lemma zlen_repeat : forall {A} (x : A) n, zlen (repeat x n) = Z.of_nat n.
+Proof. intros; unfold zlen; now rewrite repeat_length. Qed.
+
+Lemma nth_error_nset : forall {A} (l : list A) k v m x,
+  nth_error (nset l k v) m = Some x -> (m = k /\ x = v) \/ nth_error l m = Some x.
+Proof.
+  induction l as [|y l IH]; intros [|k] v [|m] x H; simpl in *; try discriminate; auto.
+  - inversion H; auto.
+  - apply IH in H. destruct H as [[-> ->]|H]; auto.
+Qed.
+
+Lemma in_zrange_from : forall n k i, In i (zrange_from k n) <-> k <= i < k + Z.of_nat n.
+Proof.
+  induction n as [|n IH]; intros k i; simpl.
+  - split; [tauto | lia].
+  - rewrite IH. lia.
+Qed.
+
+Lemma in_zrange : forall n i, In i (zrange n) <-> 0 <= i < n.
+Proof.
+  intros n i. unfold zrange. rewrite in_zrange_from.
+  destruct (Z_le_gt_dec 0 n); [rewrite Z2Nat.id by lia; lia|].
+  replace (Z.to_nat n) with 0%nat by lia. lia.
+Qed.
+
+(* ------------------------------------------------------------------ bitset *)
+Lemma set_from_iff : forall bs k i,
+  In i (set_from k bs) <-> exists m, i = k + Z.of_nat m /\ nth_error bs m = Some true.
+Proof.
+  induction bs as [|b bs IH]; intros k i; simpl.
+  - split; [tauto | intros [[|m] [_ H]]; discriminate].
+  - assert (R : In i (set_from (k + 1) bs) <-> exists m, i = k + Z.of_nat (S m) /\ nth_error bs m = Some true).
+    { rewrite IH. split; intros [m [E H]]; exists m; split; auto; lia. }
+    destruct b; simpl; rewrite ?R; split.
+    + intros [<-|[m [E H]]]; [exists 0%nat; split; [lia|reflexivity] | exists (S m); auto].
+    + intros [[|m] [E H]]; [left; lia | right; exists m; auto].
+    + intros [m [E H]]; exists (S m); auto.
+    + intros [[|m] [E H]]; [discriminate | exists m; auto].
+Qed.
+
+Lemma set_from_bounds : forall bs k i, In i (set_from k bs) -> k <= i < k + zlen bs.
+Proof.
+  intros bs k i H. apply set_from_iff in H. destruct H as [m [-> H]].
+  assert (m < length bs)%nat by (apply nth_error_Some; congruence). unfold zlen; lia.
+Qed.
+
+Lemma set_from_zset : forall bs i j,
+  In j (set_from 0 (zset bs i true)) -> j = Z.of_nat (Z.to_nat i) \/ In j (set_from 0 bs).
+Proof.
+  intros bs i j H. apply set_from_iff in H. destruct H as [m [-> H]]. unfold zset in H.
+  apply nth_error_nset in H. destruct H as [[-> _]|H]; [left; lia|].
+  right. apply set_from_iff. exists m; auto.
+Qed.
+
+Lemma length_setall_from : forall bs k l, length (setall_from k l bs) = length bs.
+Proof. induction bs; intros; simpl; auto. Qed.
+
+Lemma set_from_setall : forall bs k l j,
+  In j (set_from k (setall_from k l bs)) -> j < l \/ In j (set_from k bs).
+Proof.
+  induction bs as [|b bs IH]; intros k l j; simpl; [tauto|].
+  destruct (k <? l) eqn:E.
+  - simpl. intros [<-|H]; [left; lia|].
+    apply IH in H. destruct H; auto. right. destruct b; simpl; auto.
+  - destruct b; simpl.
+    + intros [<-|H]; auto. apply IH in H. tauto.
+    + intros H. apply IH in H. tauto.
+Qed.
+
+(* ------------------------------------------------------------------ invariant and "good" accumulators *)
+Definition Inv (t : torrent) (s : dst) : Prop :=
+  zlen (d_have s) = t_n t /\ zlen (d_cnt s) = t_n t /\
+  Forall (fun qb => clean (t_n t) (snd qb) = true) (d_peers s).
+Definition EffsOk (t : torrent) (es : list eff) : Prop := Forall (fun e => eff_ok t e = true) es.
+Definition Good (t : torrent) (a : acc) : Prop := Inv t (a_st a) /\ EffsOk t (a_eff a).
+
+Lemma inv_iff : forall t s, inv t s = true <-> Inv t s.
+Proof.
+  intros t s. unfold inv, Inv. rewrite !andb_true_iff, !Z.eqb_eq, forallb_forall, Forall_forall.
+  split; intros [[H1 H2] H3]; (split; [|split]); auto; intros [q b] Hin; apply (H3 (q, b) Hin).
+Qed.
+
+Lemma clean_spec : forall n b, clean n b = true <->
+  blen b = n /\ zlen (bbits b) = 64 * ((n + 63) / 64) /\ forall i, In i (set_idxs b) -> i < n.
+Proof.
+  intros n b. unfold clean. rewrite !andb_true_iff, !Z.eqb_eq, forallb_forall.
+  split; intros [[H1 H2] H3]; (split; [|split]); auto; intros i Hi; specialize (H3 i Hi); lia.
+Qed.
+
+Lemma clean_idx : forall n b i, clean n b = true -> In i (set_idxs b) -> 0 <= i < n.
+Proof.
+  intros n b i Hc Hi. apply clean_spec in Hc. destruct Hc as [_ [_ H]].
+  split; [|auto]. apply set_from_bounds in Hi. lia.
+Qed.
+
+Lemma find_peer_in : forall ps q b, find_peer ps q = Some b -> In (q, b) ps.
+Proof.
+  induction ps as [|[q' b'] ps IH]; simpl; intros q b H; [discriminate|].
+  destruct (q' =? q) eqn:E; [apply Z.eqb_eq in E; inversion H; subst; auto | right; auto].
+Qed.
+
+Lemma find_peer_clean : forall t s q b, Inv t s -> find_peer (d_peers s) q = Some b -> clean (t_n t) b = true.
+Proof.
+  intros t s q b [_ [_ H]] Hf. apply find_peer_in in Hf. rewrite Forall_forall in H. apply (H (q, b) Hf).
+Qed.
+
+Lemma Forall_set_peer : forall (P : Z * bset -> Prop) ps q b,
+  Forall P ps -> (forall q', P (q', b)) -> Forall P (set_peer ps q b).
+Proof.
+  intros P ps q b H Hb. unfold set_peer. apply Forall_forall. intros x Hx.
+  apply in_map_iff in Hx. destruct Hx as [[q' b'] [<- Hin]].
+  destruct (q' =? q); [apply Hb | rewrite Forall_forall in H; apply (H _ Hin)].
+Qed.
+
+Lemma Forall_del_peer : forall (P : Z * bset -> Prop) ps q, Forall P ps -> Forall P (del_peer ps q).
+Proof.
+  intros P ps q H. unfold del_peer. apply Forall_forall. intros x Hx. apply filter_In in Hx.
+  rewrite Forall_forall in H. apply H; tauto.
+Qed.
+
+Lemma good_emit : forall t a e, Good t a -> eff_ok t e = true -> Good t (emit a e).
+Proof.
+  intros t a e [HI HE] He. split; simpl; auto. unfold EffsOk in *. apply Forall_app; auto.
+Qed.
+
+Lemma in_range_iff : forall t i, in_range t i = true <-> 0 <= i < t_n t.
+Proof. intros; unfold in_range; rewrite andb_true_iff, Z.leb_le, Z.ltb_lt; tauto. Qed.
+
+(* ------------------------------------------------------------------ piece lengths *)
+Section WithTorrent.
+Variable t : torrent.
+Hypothesis WF : wf_torrent t = true.
+
+Lemma wf_facts : 1 <= t_n t /\ 1 <= t_p t /\ t_p t * (t_n t - 1) < t_len t /\ t_len t <= t_p t * t_n t.
+Proof.
+  unfold wf_torrent in WF. rewrite !andb_true_iff, !Z.leb_le, Z.ltb_lt in WF. tauto.
+Qed.
+
+Lemma plen_range : forall i, 0 <= i < t_n t -> 1 <= plen t i <= t_p t /\ 0 <= t_p t * i /\ t_p t * i + plen t i <= t_len t.
+Proof.
+  intros i Hi. destruct wf_facts as [Hn [Hp [Hl1 Hl2]]]. unfold plen.
+  replace ((i <? 0) || (t_n t <=? i)) with false
+    by (symmetry; apply orb_false_iff; split; [apply Z.ltb_ge | apply Z.leb_gt]; lia).
+  destruct (i =? t_n t - 1) eqn:E.
+  - apply Z.eqb_eq in E. subst i. nia.
+  - apply Z.eqb_neq in E. nia.
+Qed.
+
+Lemma plen_le_bound : forall i, plen t i <= alloc_bound t.
+Proof.
+  intros i. unfold alloc_bound. destruct (Z_lt_ge_dec i 0) as [H|H].
+  - unfold plen. replace (i <? 0) with true by (symmetry; apply Z.ltb_lt; lia). simpl.
+    unfold max_msg, C14_consts.conn_max_message_size. lia.
+  - destruct (Z_lt_ge_dec i (t_n t)) as [H2|H2].
+    + destruct (plen_range i) as [[_ Hb] _]; lia.
+    + unfold plen. replace (t_n t <=? i) with true by (symmetry; apply Z.leb_le; lia).
+      rewrite orb_true_r. unfold max_msg, C14_consts.conn_max_message_size. lia.
+Qed.
+
+(* ------------------------------------------------------------------ counters *)
+Lemma cnt_add_good : forall a i dlt, Good t a -> 0 <= i < t_n t ->
+  exists a', cnt_add a i dlt = Some a' /\ Good t a' /\
+             d_have (a_st a') = d_have (a_st a) /\ d_peers (a_st a') = d_peers (a_st a) /\
+             d_reqs (a_st a') = d_reqs (a_st a) /\ a_eff a' = a_eff a ++ [ECounter i].
+Proof.
+  intros a i dlt HG Hi. unfold cnt_add.
+  assert (HG' : Good t (emit a (ECounter i))) by (apply good_emit; auto; simpl; now apply in_range_iff).
+  destruct HG' as [[H1 [H2 H3]] HE]. simpl in *.
+  unfold idx_ok. rewrite H2.
+  replace ((0 <=? i) && (i <? t_n t)) with true
+    by (symmetry; apply andb_true_iff; split; [apply Z.leb_le | apply Z.ltb_lt]; lia).
+  eexists; split; [reflexivity|]. simpl. repeat split; auto. simpl. now rewrite zlen_zset.
+Qed.
+
+Lemma cnt_add_all_good : forall is a dlt, Good t a -> (forall i, In i is -> 0 <= i < t_n t) ->
+  exists a', cnt_add_all a is dlt = Some a' /\ Good t a' /\
+             d_have (a_st a') = d_have (a_st a) /\ d_peers (a_st a') = d_peers (a_st a) /\
+             d_reqs (a_st a') = d_reqs (a_st a) /\ a_eff a' = a_eff a ++ map ECounter is.
+Proof.
+  induction is as [|i is IH]; intros a dlt HG Hi; simpl.
+  - exists a; repeat split; auto; try apply HG. now rewrite app_nil_r.
+  - destruct (cnt_add_good a i dlt HG (Hi i (or_introl eq_refl))) as [a1 [E1 [G1 [A1 [B1 [C1 D1]]]]]].
+    rewrite E1. destruct (IH a1 dlt G1 (fun j Hj => Hi j (or_intror Hj))) as [a2 [E2 [G2 [A2 [B2 [C2 D2]]]]]].
+    exists a2. rewrite E2. repeat split; try apply G2; try congruence.
+    rewrite D2, D1, <- app_assoc. reflexivity.
+Qed.
+
+(* ------------------------------------------------------------------ requests *)
+Lemma request_more_good : forall a q, Good t a ->
+  Good t (request_more t a q) /\ d_have (a_st (request_more t a q)) = d_have (a_st a) /\
+  d_peers (a_st (request_more t a q)) = d_peers (a_st a) /\ d_cnt (a_st (request_more t a q)) = d_cnt (a_st a).
+Proof.
+  intros a q HG. unfold request_more. destruct (find_peer (d_peers (a_st a)) q) as [b|]; [|auto].
+  set (cands := filter _ (zrange (t_n t))).
+  assert (Hc : forall i, In i cands -> 0 <= i < t_n t).
+  { intros i Hi. apply filter_In in Hi. apply in_zrange. tauto. }
+  clearbody cands. revert a HG. induction cands as [|i cands IH]; intros a HG; simpl; [auto|].
+  match goal with |- context [fold_left ?f cands ?x] => set (a1 := x) end.
+  assert (G1 : Good t a1 /\ d_have (a_st a1) = d_have (a_st a) /\ d_peers (a_st a1) = d_peers (a_st a) /\
+               d_cnt (a_st a1) = d_cnt (a_st a)).
+  { subst a1. destruct (pending_on (d_reqs (a_st a)) i); [auto|]. split; [|auto].
+    apply good_emit.
+    - destruct HG as [[H1 [H2 H3]] HE]. repeat split; auto.
+    - simpl. rewrite Z.eqb_refl, andb_true_r. apply in_range_iff. apply Hc. now left. }
+  destruct G1 as [G1 [A1 [B1 C1]]].
+  destruct (IH (fun j Hj => Hc j (or_intror Hj)) a1 G1) as [G2 [A2 [B2 C2]]].
+  repeat split; try apply G2; congruence.
+Qed.
+
+(* ------------------------------------------------------------------ removal *)
+Lemma remove_peer_good : forall a q, Good t a -> exists a', remove_peer a q = Some a' /\ Good t a' /\
+  d_have (a_st a') = d_have (a_st a).
+Proof.
+  intros a q HG. unfold remove_peer. destruct (find_peer (d_peers (a_st a)) q) as [b|] eqn:Hf.
+  - assert (Hb : clean (t_n t) b = true) by (eapply find_peer_clean; [apply HG | eauto]).
+    match goal with |- context [cnt_add_all ?x _ _] => set (a1 := x) end.
+    assert (G1 : Good t a1).
+    { destruct HG as [[H1 [H2 H3]] HE]. subst a1. repeat split; simpl; auto. now apply Forall_del_peer. }
+    destruct (cnt_add_all_good (set_idxs b) a1 (-1) G1 (fun i Hi => clean_idx _ _ _ Hb Hi))
+      as [a2 [E2 [G2 [A2 _]]]].
+    exists a2. repeat split; auto; apply G2.
+  - exists a. repeat split; auto; apply HG.
+Qed.
+
+Lemma remove_peers_good : forall qs a, Good t a -> exists a', remove_peers a qs = Some a' /\ Good t a' /\
+  d_have (a_st a') = d_have (a_st a).
+Proof.
+  induction qs as [|q qs IH]; intros a HG; simpl.
+  - exists a; repeat split; auto; apply HG.
+  - destruct (remove_peer_good a q HG) as [a1 [E1 [G1 A1]]]. rewrite E1.
+    destruct (IH a1 G1) as [a2 [E2 [G2 A2]]]. exists a2. repeat split; auto; try apply G2. congruence.
+Qed.
+
+(* ------------------------------------------------------------------ bit writes *)
+Lemma to_uint_small : forall i, 0 <= i < two64 -> to_uint i = i.
+Proof. intros; unfold to_uint; now apply Z.mod_small. Qed.
+
+Lemma b_set_clean : forall b i, clean (t_n t) b = true -> 0 <= i < t_n t ->
+  exists b', b_set b i = Some b' /\ clean (t_n t) b' = true.
+Proof.
+  intros b i Hc Hi. pose proof Hc as Hc'. apply clean_spec in Hc'. destruct Hc' as [H1 [H2 H3]].
+  unfold b_set. rewrite H1. replace (i <? t_n t) with true by (symmetry; apply Z.ltb_lt; lia).
+  eexists; split; [reflexivity|]. apply clean_spec. simpl. rewrite zlen_zset. repeat split; auto.
+  intros j Hj. unfold set_idxs in Hj; simpl in Hj. apply set_from_zset in Hj.
+  destruct Hj as [->|Hj]; [rewrite Z2Nat.id; lia | now apply H3].
+Qed.
+
+Lemma n_lt_two64 : forall s, Inv t s -> True.
+Proof. trivial. Qed.
+
+Lemma set_bit_good : forall a q i, Good t a -> 0 <= i < t_n t -> t_n t <= two64 ->
+  exists a', set_bit_of a q i = Some a' /\ Good t a' /\ d_have (a_st a') = d_have (a_st a) /\
+             d_cnt (a_st a') = d_cnt (a_st a).
+Proof.
+  intros a q i HG Hi Hn. unfold set_bit_of.
+  assert (G1 : Good t (emit a (EBit i))) by (apply good_emit; auto; simpl; now apply in_range_iff).
+  simpl. destruct (find_peer (d_peers (a_st a)) q) as [b|] eqn:Hf.
+  - assert (Hb : clean (t_n t) b = true) by (eapply find_peer_clean; [apply HG | eauto]).
+    rewrite to_uint_small by lia.
+    destruct (b_set_clean b i Hb Hi) as [b' [E Hc']]. rewrite E.
+    eexists; split; [reflexivity|]. destruct G1 as [[H1 [H2 H3]] HE]. simpl in *.
+    repeat split; simpl; auto. apply Forall_set_peer; auto.
+  - eexists; split; [reflexivity|]. repeat split; auto; apply G1.
+Qed.
+
+End WithTorrent.
